@@ -186,8 +186,20 @@ func (n *AbsfsNFS) UpdateTuningOptions(fn func(*TuningOptions)) {
 		updated.Timeouts = &tCopy
 	}
 	fn(&updated)
+	// Zero, negative and nil fields take the same defaults as at construction,
+	// so the server stays serviceable whatever the caller passed.
+	updated.applyDefaults()
 	n.tuning.Store(&updated)
 	n.applyTuningSideEffects(old, &updated)
+}
+
+// applyDefaults fills unset (zero, negative, nil) tuning fields with the
+// construction-time defaults.
+func (t *TuningOptions) applyDefaults() {
+	opts := exportOptionsFromSnapshots(t, &PolicyOptions{})
+	opts.hasExplicitTCPSettings = true // TCP flags are taken as given at runtime
+	applyExportDefaults(&opts)
+	*t = *tuningFromExportOptions(&opts)
 }
 
 // UpdatePolicyOptions swaps policy using drain-and-swap.
@@ -200,6 +212,11 @@ func (n *AbsfsNFS) UpdatePolicyOptions(newPolicy PolicyOptions) error {
 	old := n.policy.Load()
 	if old.Squash != newPolicy.Squash {
 		return fmt.Errorf("cannot change Squash mode at runtime")
+	}
+	if newPolicy.RateLimitConfig == nil {
+		// Same default as at construction
+		config := DefaultRateLimiterConfig()
+		newPolicy.RateLimitConfig = &config
 	}
 
 	// Drain in-flight requests: Lock() blocks until all RLock holders
